@@ -299,7 +299,11 @@ func corrOf(id int, origin string, p *starlark.Program, class []string) corrCase
 		return c
 	}
 	c.Bytes = hexs(b1)
-	p2, err := starlark.VerifDecodeProgram(append([]byte(nil), b1...))
+	in := append([]byte(nil), b1...)
+	p2, err := starlark.VerifDecodeProgram(in)
+	for i := range in { // the decoded program must not depend on the input slice any more
+		in[i] = 0xff
+	}
 	if err != nil {
 		add("roundtrip:decode-error", "DecodeProgram(Encode(p)) failed: "+err.Error())
 		return c
